@@ -66,6 +66,9 @@ inductive Op3 where
   /-- an observed `MsgSendToFxClaim` whose `TargetIbc` names the channel of the group's voucher, executed
   (`SendToFxExecuted` → `transferIBCHandler`): deposit to the receiver, base coin → voucher, ibc `Transfer`; all or nothing -/
   | depositIbc (c g u n : Nat)
+  /-- precompile `crossChain(token = the group's ERC-20, amount n, fee 0, target = the voucher's channel)`: ERC-20 → base coin
+  (`handlerERC20Token`), base coin → voucher, ibc `Transfer`; all or nothing -/
+  | xibc (g u n : Nat)
   deriving Repr
 
 def setBase (s : State3) (b : State) : State3 := { s with s2 := { s.s2 with base := b } }
@@ -94,6 +97,22 @@ def step3 (cfg : Cfg) (s : State3) : Op3 → Except Err State3
         match stepIbc cfg b2 (.xfer g u n) with
         | .error e => .error e
         | .ok b3 => .ok { setBase s b3 with ibcOut := bump s.ibcOut g n }
+
+  | .xibc g u n =>
+    -- `CrossChainArgs.Validate`: amount positive
+    if n = 0 then .error .invalid else
+    match cfg.kind g with
+    | none => .error .notFound
+    | some kp =>
+      match run s.s2.base (precompileTokenIn kp g (U u) n) with
+      | .error e => .error e
+      | .ok b1 =>
+        match stepIbc cfg b1 (.toIbc g u n) with
+        | .error e => .error e
+        | .ok b2 =>
+          match stepIbc cfg b2 (.xfer g u n) with
+          | .error e => .error e
+          | .ok b3 => .ok { setBase s b3 with ibcOut := bump s.ibcOut g n }
 
 def stepT3 (cfg : Cfg) (s : State3) (op : Op3) : State3 :=
   match step3 cfg s op with
